@@ -171,6 +171,9 @@ pub struct InnerState {
     /// scripted latencies are spent inside `call()` itself (synchronous work before the future
     /// is returned - Tower allows it) instead of inside the returned future; see clock::burn
     pub latency_inside_call: bool,
+    /// an instance that has answered Ready and is asked again before it was called answers with
+    /// an error (Tower allows it: readiness is a reservation that is consumed by `call`)
+    pub second_ready_check_fails: bool,
     /// the largest number of inner calls that were inside the service at the start of a call
     /// (a call whose future is being dropped right now still counts)
     pub peak_live: usize,
@@ -262,6 +265,7 @@ pub fn new_shared(origin: tokio::time::Instant, mode: Mode) -> Shared {
         sync_panic_calls: Vec::new(),
         busy: false,
         latency_inside_call: false,
+        second_ready_check_fails: false,
         peak_live: 0,
         on_drop: None,
     }))
@@ -330,6 +334,12 @@ impl tower::Service<Req> for GatedInner {
                     return Poll::Ready(Err(InnerErr { id, kind: 5 }));
                 }
             }
+        }
+        if g.second_ready_check_fails && self.ready {
+            let now = g.now_ms();
+            g.ready_log.push((self.instance, now, ReadyAns::Err(6)));
+            let id = g.fresh_serial();
+            return Poll::Ready(Err(InnerErr { id, kind: 6 }));
         }
         let ans = g.ready_script.pop_front().unwrap_or(ReadyAns::Ready);
         let now = g.now_ms();
